@@ -27,6 +27,9 @@ type TierCfg struct {
 	Cases    [][]int  `json:"cases"`     // explicit cases (in addition)
 	MaxPaths int      `json:"max_paths"` // per case; 0 = default
 	MaxSteps int      `json:"max_steps"`
+	// wall-clock budget of one case in seconds (0 = 900 quick / 3000 thorough): a case that is still exploring
+	// after that is abandoned and reported INCONCLUSIVE - never as a pass - and the remaining cases still run
+	CaseBudgetS int `json:"case_budget_s"`
 }
 
 type HarnessCfg struct {
@@ -268,6 +271,8 @@ type HarnessRun struct {
 	args     []int
 	maxSteps int
 	maxPaths int
+	budget   time.Duration
+	timedOut bool
 	seed     int64
 	kfOnly   string // known-finding confirm mode: only this id
 	kfKnown  map[string]bool
@@ -497,6 +502,24 @@ func (h *HarnessRun) explore(workers int, timeoutMs int) {
 	h.work = []workItem{{}}
 	var wg sync.WaitGroup
 	var pathNo int64
+	deadline := time.Now().Add(h.budget)
+	if os.Getenv("VCHECK_PROGRESS") != "" {
+		stop := make(chan struct{})
+		defer close(stop)
+		go func() {
+			t0 := time.Now()
+			for {
+				select {
+				case <-stop:
+					return
+				case <-time.After(10 * time.Second):
+					h.mu.Lock()
+					fmt.Fprintf(os.Stderr, "  progress %s%v: %.0fs paths=%d queue=%d active=%d\n", h.cfg.Name, h.args, time.Since(t0).Seconds(), atomic.LoadInt64(&pathNo), len(h.work), h.active)
+					h.mu.Unlock()
+				}
+			}
+		}()
+	}
 	for i := 0; i < workers; i++ {
 		wg.Add(1)
 		go func() {
@@ -527,6 +550,10 @@ func (h *HarnessRun) explore(workers int, timeoutMs int) {
 					h.mu.Lock()
 					h.truncated = true
 					h.mu.Unlock()
+				} else if h.budget > 0 && time.Now().After(deadline) {
+					h.mu.Lock()
+					h.timedOut = true
+					h.mu.Unlock()
 				} else {
 					sibs = h.runPath(p, sol, n)
 				}
@@ -551,6 +578,9 @@ func (h *HarnessRun) explore(workers int, timeoutMs int) {
 	wg.Wait()
 	if h.truncated {
 		h.recordInconclusive(fmt.Sprintf("path budget %d exhausted", h.maxPaths))
+	}
+	if h.timedOut {
+		h.recordInconclusive(fmt.Sprintf("case time budget %.0fs exhausted with paths left to explore", h.budget.Seconds()))
 	}
 }
 
@@ -598,6 +628,13 @@ func newHarnessRun(w *World, cfg *HarnessCfg, tier string, args []int, seed int6
 	}
 	if tc.MaxPaths > 0 {
 		h.maxPaths = tc.MaxPaths
+	}
+	h.budget = 900 * time.Second
+	if tier == "thorough" {
+		h.budget = 3000 * time.Second
+	}
+	if tc.CaseBudgetS > 0 {
+		h.budget = time.Duration(tc.CaseBudgetS) * time.Second
 	}
 	// package initialisers: the harness package and interpretable dependencies that own globals we read
 	for _, pp := range []string{
